@@ -90,8 +90,11 @@ var orderNames = []string{"ascending", "descending", "zigzag-outside-in", "middl
 
 func (d *kvDriver[K]) probe() {
 	r := d.c.R
-	if r.Intn(25) == 0 {
+	if x := r.Intn(50); x < 2 {
 		d.m.Reload()
+		return
+	} else if x == 2 {
+		d.m.ReloadForeign()
 		return
 	}
 	if d.m.Nav && d.m.A.Sorted && r.Intn(3) == 0 {
